@@ -536,6 +536,9 @@ def sig_injective(repo, res):
         "a quadrature sub-element of a mixed element whose weights differ in the 10th digit": ([PlainElement(), MixedElement([PlainElement(), QElement(P_, W_)])],
                                                                                                  [PlainElement(), MixedElement([PlainElement(), QElement(P_, W2_)])]),
     }
+    # two functions over quadrature elements with equal repr whose rules are exchanged: f on Q1, g on Q2 against f on Q2, g on Q1 - other kernels
+    QA, QB = QElement(P_, W_), QElement(P_, W2_)
+    epairs["two quadrature elements of equal repr whose rules are exchanged between two functions"] = ([PlainElement(), QA, QB], [PlainElement(), QB, QA])
     for kind in ("form", "expression"):
         for label, (e1, e2) in epairs.items():
             key = f"{cs.key}:exact-encoding:{kind}:{label}"
